@@ -79,7 +79,7 @@ Definition Stuck (n : nat) (s : gst) : Prop :=
   (forall r, won (wst s r) = true -> armed (wst s r) = true) /\
   (exists o, In o (otog s) /\ ph (ost s o) = PQueued /\ kind (ost s o) = 0).
 
-Ltac upd_cases :=
+Ltac upd_cases_s :=
   repeat match goal with
   | |- context [upd ?f ?x ?v ?y] =>
       let e := fresh "e" in
@@ -91,12 +91,23 @@ Ltac upd_cases :=
       [ first [subst y | subst x | rewrite <- e in *]; rewrite ?upd_same in * | rewrite (upd_other f x y v e) in * ]
   end.
 
+Ltac upd_split f x v y :=
+  let e := fresh "e" in
+  destruct (Nat.eq_dec y x) as [e|e];
+  [ replace (upd f x v y) with v in * by (rewrite e; symmetry; apply upd_same)
+  | replace (upd f x v y) with (f y) in * by (symmetry; apply upd_other; exact e) ].
+Ltac upd_cases :=
+  repeat match goal with
+  | |- context [upd ?f ?x ?v ?y] => lazymatch y with context [upd] => fail | _ => upd_split f x v y end
+  | H : context [upd ?f ?x ?v ?y] |- _ => lazymatch y with context [upd] => fail | _ => upd_split f x v y end
+  end; try subst.
+
 Ltac stuck_auto ob Hoff Hg :=
-  split; [try assumption; try (upd_cases; lia)|];
-  split; [intro o'; upd_cases; simpl; try congruence; auto|];
-  split; [intro o'; upd_cases; simpl; try congruence; try (rewrite Hoff; reflexivity); try (intros _; apply Hg; congruence); auto|];
-  split; [intro r'; upd_cases; simpl; try congruence; try (rewrite Hoff; reflexivity); auto|];
-  exists ob; upd_cases; simpl; try congruence; auto;
+  split; [try assumption; try (upd_cases_s; lia)|];
+  split; [intro o'; upd_cases_s; simpl; try congruence; auto|];
+  split; [intro o'; upd_cases_s; simpl; try congruence; try (rewrite Hoff; reflexivity); try (intros _; apply Hg; congruence); auto|];
+  split; [intro r'; upd_cases_s; simpl; try congruence; try (rewrite Hoff; reflexivity); auto|];
+  exists ob; upd_cases_s; simpl; try congruence; auto;
   try (split; [first [right; assumption | apply in_remove_nat; split; [assumption | congruence] | assumption]|]; auto).
 
 Lemma stuck_step : forall n s l s', Stuck n s -> gstep (Some n) s l = Some s' -> Stuck n s'.
@@ -202,135 +213,135 @@ Lemma st_open : forall lim s l s', GInv s -> gstep lim s l = Some s' ->
   is_on s' = true -> 0 < nblock s' -> opened s' = true.
 Proof.
   intros lim s l s' I H. enter I H.
-  all: try solve [light].
-  all: idtac "LEFT open".
+  all: try solve [timeout 20 light].
+  all: match goal with |- _ => idtac "LEFT open" end.
 Abort.
 
 Lemma st_nb_w : forall lim s l s', GInv s -> gstep lim s l = Some s' ->
   forall r, won (wst s' r) = true -> 0 < nblock s'.
 Proof.
   intros lim s l s' I H. enter I H.
-  all: try solve [light].
-  all: idtac "LEFT nb_w".
+  all: try solve [timeout 20 light].
+  all: match goal with |- _ => idtac "LEFT nb_w" end.
 Abort.
 
 Lemma st_nb_o : forall lim s l s', GInv s -> gstep lim s l = Some s' ->
   forall o, ph (ost s' o) <> PNew -> won (wst s' (kind (ost s' o))) = true.
 Proof.
   intros lim s l s' I H. enter I H.
-  all: try solve [light].
-  all: idtac "LEFT nb_o".
+  all: try solve [timeout 20 light].
+  all: match goal with |- _ => idtac "LEFT nb_o" end.
 Abort.
 
 Lemma st_dis : forall lim s l s', GInv s -> gstep lim s l = Some s' ->
   forall r, won (wst s' r) = true -> armed (wst s' r) = false -> opened s' = true.
 Proof.
   intros lim s l s' I H. enter I H.
-  all: try solve [light].
-  all: idtac "LEFT dis".
+  all: try solve [timeout 20 light].
+  all: match goal with |- _ => idtac "LEFT dis" end.
 Abort.
 
 Lemma st_ung : forall lim s l s', GInv s -> gstep lim s l = Some s' ->
   forall o, ph (ost s' o) <> PNew -> gated (ost s' o) = false -> opened s' = true.
 Proof.
   intros lim s l s' I H. enter I H.
-  all: try solve [light].
-  all: idtac "LEFT ung".
+  all: try solve [timeout 20 light].
+  all: match goal with |- _ => idtac "LEFT ung" end.
 Abort.
 
 Lemma st_rt : forall lim s l s', GInv s -> gstep lim s l = Some s' ->
   forall r, won (wst s' r) = true -> windexed (wst s' r) = true -> listed s' r = false -> In r (rtog s').
 Proof.
   intros lim s l s' I H. enter I H.
-  all: try solve [light].
-  all: idtac "LEFT rt".
+  all: try solve [timeout 20 light].
+  all: match goal with |- _ => idtac "LEFT rt" end.
 Abort.
 
 Lemma st_early : forall lim s l s', GInv s -> gstep lim s l = Some s' ->
   forall o, ph (ost s' o) <> PNew -> early (ost s' o) = true -> mk (ost s' o) = true.
 Proof.
   intros lim s l s' I H. enter I H.
-  all: try solve [light].
-  all: idtac "LEFT early".
+  all: try solve [timeout 20 light].
+  all: match goal with |- _ => idtac "LEFT early" end.
 Abort.
 
 Lemma st_ot : forall lim s l s', GInv s -> gstep lim s l = Some s' ->
   forall o, mk (ost s' o) = true -> pre_index (ph (ost s' o)) -> In o (otog s').
 Proof.
   intros lim s l s' I H. enter I H.
-  all: try solve [light].
-  all: idtac "LEFT ot".
+  all: try solve [timeout 20 light].
+  all: match goal with |- _ => idtac "LEFT ot" end.
 Abort.
 
 Lemma st_busy : forall lim s l s', GInv s -> gstep lim s l = Some s' ->
   forall r o, busy (wst s' r) = Some o -> in_first (ph (ost s' o)) /\ kind (ost s' o) = r.
 Proof.
   intros lim s l s' I H. enter I H.
-  all: try solve [light].
-  all: idtac "LEFT busy".
+  all: try solve [timeout 20 light].
+  all: match goal with |- _ => idtac "LEFT busy" end.
 Abort.
 
 Lemma st_chk : forall lim s l s', GInv s -> gstep lim s l = Some s' ->
   forall o, in_first (ph (ost s' o)) -> busy (wst s' (kind (ost s' o))) = Some o.
 Proof.
   intros lim s l s' I H. enter I H.
-  all: try solve [light].
-  all: idtac "LEFT chk".
+  all: try solve [timeout 20 light].
+  all: match goal with |- _ => idtac "LEFT chk" end.
 Abort.
 
 Lemma st_chk_e : forall lim s l s', GInv s -> gstep lim s l = Some s' ->
   forall o, ph (ost s' o) = PChecked -> early (ost s' o) = true -> listed s' (kind (ost s' o)) = false /\ windexed (wst s' (kind (ost s' o))) = true.
 Proof.
   intros lim s l s' I H. enter I H.
-  all: try solve [light].
-  all: idtac "LEFT chk_e".
+  all: try solve [timeout 20 light].
+  all: match goal with |- _ => idtac "LEFT chk_e" end.
 Abort.
 
 Lemma st_k1 : forall lim s l s', GInv s -> gstep lim s l = Some s' ->
   forall o, In o (otog s') -> pre_index (ph (ost s' o)).
 Proof.
   intros lim s l s' I H. enter I H.
-  all: try solve [light].
-  all: idtac "LEFT k1".
+  all: try solve [timeout 20 light].
+  all: match goal with |- _ => idtac "LEFT k1" end.
 Abort.
 
 Lemma st_k3 : forall lim s l s', GInv s -> gstep lim s l = Some s' ->
   forall r, In r (rtog s') -> won (wst s' r) = true.
 Proof.
   intros lim s l s' I H. enter I H.
-  all: try solve [light].
-  all: idtac "LEFT k3".
+  all: try solve [timeout 20 light].
+  all: match goal with |- _ => idtac "LEFT k3" end.
 Abort.
 
 Lemma st_k4 : forall lim s l s', GInv s -> gstep lim s l = Some s' ->
   forall r, nrun s' r + List.length (pend s' r) <= nseen s' r.
 Proof.
   intros lim s l s' I H. enter I H.
-  all: try solve [light].
-  all: idtac "LEFT k4".
+  all: try solve [timeout 20 light].
+  all: match goal with |- _ => idtac "LEFT k4" end.
 Abort.
 
 Lemma st_k5 : forall lim s l s', GInv s -> gstep lim s l = Some s' ->
   forall r o, In o (pend s' r) -> ph (ost s' o) = PQueued /\ kind (ost s' o) = r.
 Proof.
   intros lim s l s' I H. enter I H.
-  all: try solve [light].
-  all: idtac "LEFT k5".
+  all: try solve [timeout 20 light].
+  all: match goal with |- _ => idtac "LEFT k5" end.
 Abort.
 
 Lemma st_k5q : forall lim s l s', GInv s -> gstep lim s l = Some s' ->
   forall o, ph (ost s' o) = PQueued -> In o (pend s' (kind (ost s' o))).
 Proof.
   intros lim s l s' I H. enter I H.
-  all: try solve [light].
-  all: idtac "LEFT k5q".
+  all: try solve [timeout 20 light].
+  all: match goal with |- _ => idtac "LEFT k5q" end.
 Abort.
 
 Lemma st_kn : forall lim s l s', GInv s -> gstep lim s l = Some s' ->
   NoDup (kinds s') /\ forall r, won (wst s' r) = true <-> In r (kinds s').
 Proof.
   intros lim s l s' I H. enter I H.
-  all: try solve [light].
-  all: idtac "LEFT kn".
+  all: try solve [timeout 20 light].
+  all: match goal with |- _ => idtac "LEFT kn" end.
 Abort.
 
